@@ -54,6 +54,9 @@ func genTextCase(r *gen.R, so gen.StrOpt, o gen.Options) recCase {
 	for i := 0; i < n; i++ {
 		lead := string(rune('a' + r.Intn(26)))
 		key := lead + r.LogfmtKey(fmt.Sprintf("k%d~", i))
+		if r.P(6) {
+			key += gen.Pick(r, []string{".time", ".level", ".msg", ".caller", ".logger", "time", ".error"}) // names of the envelope as suffixes: still ordinary keys
+		}
 		var v gen.V
 		if r.P(25) && !o.NoGroups {
 			v = r.Group(o, 1)
@@ -77,6 +80,12 @@ func renameGroupKeys(r *gen.R, v *gen.V) {
 	for i := range v.Items {
 		gkCounter++
 		v.Items[i].Key = string(rune('a'+r.Intn(26))) + r.LogfmtKey(fmt.Sprintf("m%d~", gkCounter))
+		if r.P(5) {
+			v.Items[i].Key = gen.Pick(r, []string{"time", "level", "msg", "error"}) + fmt.Sprint(gkCounter) // group members named like the envelope (unique)
+			if gkCounter%3 == 0 && i == 0 {
+				v.Items[i].Key = gen.Pick(r, []string{"time", "level", "msg"}) // at most one member per group carries the bare name
+			}
+		}
 		renameGroupKeys(r, &v.Items[i].Val)
 	}
 }
